@@ -5,6 +5,7 @@ DynamicLength.encode_length, ConstantInt.encode_body, raw_unicode_escape, Pickle
 insert_python / append_python / insert_function_call_on_unpickled_object, cli.main --create.
 Read-back: CPython's pure-Python unpickler (values) and pickletools.genops (opcode, argument)."""
 import io
+import os
 import pickle
 import pickletools
 from typing import List
@@ -199,6 +200,60 @@ def const_misc(kind: int, i: int) -> bool:
         if isinstance(x, float):
             return type(v) is float and repr(v) == repr(x)
         return same(v, x)
+
+
+SEQ_POOL = [0, 1, 2, True, False, 0.0, -0.0, 1.0, 2.0, "1", b"1", "0", 255, 255.0, -1, -1.0]
+
+
+def _outcome(x):
+    """('refused',) or ('value', canonical form of what the VM reads back)"""
+    try:
+        data = ConstantOpcode.new(x).encode()
+    except REFUSAL:
+        return ("refused",)
+    try:
+        v = vm_value(data)
+    except Exception:
+        return ("unreadable",)
+    return ("value", type(v).__name__, repr(v))
+
+
+def const_sequence(i: int, j: int) -> bool:
+    """
+    pre: 0 <= i < 16 and 0 <= j < 16
+    post: _
+    """
+    # what a constant means must not depend on which constants were encoded before it (values that compare equal
+    # across kinds: 1 == True == 1.0, 0 == False == -0.0 == 0.0): encode pool[i], then pool[j], and demand for the
+    # second the same outcome a fresh interpreter gives (REFERENCE, computed in a child process at start-up)
+    i, j = pin(i, 0, len(SEQ_POOL) - 1), pin(j, 0, len(SEQ_POOL) - 1)
+    with native():
+        _reference()
+        _outcome(SEQ_POOL[i])
+        got = _outcome(SEQ_POOL[j])
+        rt.reach()
+        x = SEQ_POOL[j]
+        if got[0] == "value" and not (got[1] == type(x).__name__ and got[2] == repr(x)):
+            return False                   # silently a different value or kind
+        return got == tuple(REFERENCE[j])
+
+
+REFERENCE = []
+
+
+def _reference():
+    """outcome of every pool element alone, each in a fresh interpreter"""
+    import json
+    import subprocess
+    import sys as _sys
+    if REFERENCE:
+        return
+    code = ("import sys, json; sys.path.insert(0, %r); import harness.c15 as H\n"
+            "k = int(sys.argv[1]); print(json.dumps(H._outcome(H.SEQ_POOL[k])))") % os.path.dirname(os.path.dirname(os.path.abspath(__file__)))
+    procs = [subprocess.Popen([_sys.executable, "-c", code, str(k)], stdout=subprocess.PIPE, text=True) for k in range(len(SEQ_POOL))]
+    for p in procs:
+        out = p.communicate(timeout=120)[0]
+        REFERENCE.append(json.loads(out.strip().splitlines()[-1]))
 
 
 # ------------------------------------------------------------------------------------ containers & helpers
@@ -518,6 +573,9 @@ def lemmas(tier):
               doc={"S": ["n in 250..260 (length across the 1-byte/4-byte switch)", "fill byte in {00,41,ff} (pinned)"], "bound": "constant fill"}),
         Lemma("const_str", const_str, timeout=60 if q else 1800, dry=[{"s": "0"}, {"s": "\xe9"}], doc={"S": ["s: every str of length <= %d (full Unicode)" % STR_MAXLEN[0]], "bound": "len<=%d" % STR_MAXLEN[0]}),
         Lemma("const_str_samples", const_str_samples, timeout=T, dry=[{"i": 2}], doc={"F": ["%d text-class samples" % len(STR_SAMPLES)]}),
+        Lemma("const_sequence", const_sequence, timeout=T, dry=[{"i": 1, "j": 3}, {"i": 3, "j": 1}, {"i": 0, "j": 6}],
+              doc={"F": ["ordered pairs from %d constants that compare equal across kinds (ints, bools, floats incl. -0.0, numeric-looking text/bytes): the second is encoded after the first in the same interpreter and must give the outcome a fresh interpreter gives" % len(SEQ_POOL)],
+                   "bound": "pairs"}),
         Lemma("const_misc", const_misc, timeout=T, dry=[{"kind": 1, "i": 3}], doc={"F": ["bytes / float / bool,None,complex,tuple,set,bytearray samples"]}),
     ] + [
         Lemma("container_args_h%d" % h, make_container_lemma(h, not q), timeout=T, dry=[{"shape": 4, "a": 1, "b": 300}],
